@@ -41,6 +41,26 @@ PROPS = {
                    'IEEE-754 exactness assumption for init_pass (see level_note), tested by sweep on the compiled code'],
   'assumptions': ['width, height in [1, 2^32-1]', 'bits per pixel in {1,2,4,8,16,24,32,48,64}', 'stride*8 >= width*bits for the whole-image theorem'],
  },
+ 'C07': {
+  'level_text': 'Coq theorem (closed under the global context, for EVERY inflater behaviour, every well-formed decoder state and every byte buffer): one '
+                'StreamingDecoder::update call of the L0 model never exhausts its 2*len+8 transition budget (the measure 2*bytes_left + rank(state) strictly '
+                'decreases on every silent transition), consumes at most the buffer, returns the silent event only after consuming the whole non-empty buffer '
+                '(so each call consumes a byte, returns an event or returns an error), poisons the decoder on every error, and preserves well-formedness; the '
+                'poisoned state answers at once. The L0 model is tied to stream.rs by differential execution of traces on every run; the Reader-level loops are '
+                'checked by step counters (fill_buf calls <= 8*|input| + 2*|output| + 64, no run of zero-byte consumes) and a watchdog.',
+  'level_note': 'Trusted: Coq kernel; hand model of stream.rs (update/next_state/parse_u32/parse_chunk and all chunk parsers) in coq/Model/Stream.v tied by correspondence; '
+                'the Reader/ReadDecoder loops and zlib.rs are NOT covered by the theorem (measured by counters + watchdog only); extraction + OCaml driver; harness.',
+  'gen_items': ['CHUNK_BUFFER_SIZE', 'signature', 'chunk.consts', 'chunk.is_critical', 'parse_chunk.benign'],
+  'model_name': 'Model/Stream.v update (L0 machine) with the reference inflater',
+  'rule': 'cases = valid PNG/APNG files with random legal ancillary chunks, structural and byte mutations of them, chunk bodies crossing the 32 KiB buffer, '
+          'repository corpus files, every truncation of small files, compressible bombs; each through the low-level decoder under 6-16 delivery schedules (update-call '
+          'counter, zero-progress runs) and through the Reader by three paths (next_frame, next_row, finish) under 3 schedules (fill_buf counter, zero-byte consume runs); '
+          'model-vs-implementation traces on small files. Non-trivial: more than the signature and IHDR; distinct = (kind, length) signatures, hashed.',
+  'trusted_base': ['hand model of src/decoder/stream.rs in coq/Model/Stream.v, tied by differential execution of event traces',
+                   'Reader-level termination is measured (counters, watchdog), not proved'],
+  'assumptions': ['buffers are byte strings (0..255)', 'the inflater is arbitrary in the theorem; in the correspondence it is the Gallina reference inflate'],
+  'timeout_quick': 900,
+ },
 }
 
 NOT_APPLICABLE = {}
